@@ -640,7 +640,7 @@ def main(argv=None):
     chk.trusted = ["T5 sqrt contract, field axioms, odd group order (instantiated as stated in the module docstring)",
                    "byte-level specifications of Fq::read/write_big_endian, negate, compare (C02), is_on_curve (C05), subgroup test = [r]P == O (C06)", "z3"]
     # lower layers whose specifications this check relies on: their obligations are part of this check's claim (framework.Check.include)
-    for dep in ['C06', 'C02', 'C03', 'C04', 'C05', 'C19']:
+    for dep in ['C06', 'C02', 'C03', 'C04', 'C05', 'C19', 'C20']:
         chk.include(dep)
     chk.run()
     chk.finish()
